@@ -77,9 +77,24 @@ def _map_tree(x, f):
     return x
 
 
+# EXPONENT (harness-only, like sections): ("intr", "IExponent", [e]) is written exponent(real(e)) and evaluates to
+# floor(log2|e|)+1 (0 for e = 0) = |e|.bit_length().  vlib.minifort's evaluator is extended in this process only.
+_mf_ev = mf.ev
+
+
+def _ev_with_exponent(st, e, reads):
+    if e[0] == "intr" and e[1] == "IExponent":
+        return abs(_ev_with_exponent(st, e[2][0], reads)).bit_length()
+    return _mf_ev(st, e, reads)
+
+
+mf.ev = _ev_with_exponent
+
+
 def has_sections(x):
+    """harness-only syntax: an array section or EXPONENT"""
     if isinstance(x, (list, tuple)):
-        if isinstance(x, tuple) and x and x[0] == "rng":
+        if isinstance(x, tuple) and x and (x[0] == "rng" or (x[0] == "intr" and x[1] == "IExponent")):
             return True
         return any(has_sections(q) for q in x)
     return False
@@ -90,6 +105,8 @@ def text_form(stmts):
     def f(t):
         if t and t[0] == "rng":
             return ("var", "%s:%s" % (mf.expr_to_fortran(t[1]), mf.expr_to_fortran(t[2])))
+        if t and t[0] == "intr" and t[1] == "IExponent":
+            return ("var", "exponent(real(%s))" % mf.expr_to_fortran(t[2][0]))
         return t
     return _map_tree(stmts, f)
 
@@ -123,7 +140,7 @@ def desugar(stmts, temps):
     out = []
     for st in stmts:
         k = st[0]
-        if k == "assign" and has_sections(st):
+        if k == "assign" and _extent(st):
             n = _extent(st)
             for q in range(n):
                 tv = "zt%d" % q
@@ -214,8 +231,12 @@ class LoopGen:
             return self.ref(env, "r", arrays=["a", "a", "e", "a", "e", "b", "c", "d"] if r.random() < 0.85 else None)
         if c < 0.9:
             return ("bin", r.choice(["Add", "Sub", "Mul", "Add"]), self.expr(env, depth + 1), self.expr(env, depth + 1))
-        if c < 0.95:
-            return ("intr", r.choice(["IMin", "IMax"]), [self.expr(env, depth + 1), self.expr(env, depth + 1)])
+        if c < 0.94:
+            return ("intr", r.choice(["IMin", "IMax", "ISign"]), [self.expr(env, depth + 1), self.expr(env, depth + 1)])
+        if c < 0.96:
+            return ("intr", "IMod", [self.expr(env, depth + 1), lit(r.choice([2, 3]))])
+        if c < 0.975 and self.sections:
+            return ("intr", "IExponent", [self.expr(env, depth + 1)])       # harness-only
         return ("intr", "IAbs", [self.expr(env, depth + 1)])
 
     def cond(self, env):
@@ -359,6 +380,12 @@ SHAPES = [
     ("distance-symbol-alias-ji", ("do", "ji", lit(2), lit(5), lit(1),
                                   [("assign", "b", [var("ji")], ("bin", "Add", ("idx", "b", [("bin", "Add", var("ji"), var("d_ji"))]), lit(1)))])),
     ("distance-symbol-write-side", _do([("assign", "b", [("bin", "Add", var("i"), var("d_i"))], ("idx", "a", [var("i")]))])),
+    # the carried read / the only read of a temporary sits in the argument of an elemental intrinsic
+    ("exponent-carried", _do([("assign", "b", [var("i")], ("bin", "Add", A_I, ("intr", "IExponent", [("idx", "b", [off("i", -1)])])))], lo=2, hi=5)),
+    ("exponent-only-read-of-temp", _do([("assign", "t", [], A_I), ("assign", "b", [var("i")], ("intr", "IExponent", [var("t")]))])),
+    ("abs-carried", _do([("assign", "b", [var("i")], ("bin", "Add", A_I, ("intr", "IAbs", [("idx", "b", [off("i", -1)])])))], lo=2, hi=5)),
+    ("sign-mod-only-read-of-temp", _do([("assign", "t", [], A_I),
+                                        ("assign", "b", [var("i")], ("intr", "ISign", [("intr", "IMod", [var("t"), lit(3)]), var("t")]))])),
     # array sections (harness-only): carried through overlapping / identical / disjoint sections, same column,
     # backward overlap inside one iteration (needs evaluate-all-then-store), section in the loop dimension
     ("section-overlap-carried", _do([("assign", "d", [rng(lit(2), 3), var("i")],
@@ -847,7 +874,7 @@ def run(ctx):
         "const, n, inner var, index scalar, 2*i, i+n, i+tmp, i/2, i+-<name colliding with an invented name: d_i d1_i d_ji idx "
         "loop_start tmp th_idx nthreads>; loops over i / ji / jj; 1-D and 2-D; array-section assignments lo:hi with "
         "identical / overlapping / disjoint literal sections or sections in the loop dimension, harness-only), scalar assignment, IF/ELSE, inner DO (literal or "
-        "variable trip count)}; bounds literal / n, steps 1, 2, -1; 29 targeted shapes first; each loop goes through "
+        "variable trip count)}; bounds literal / n, steps 1, 2, -1; 33 targeted shapes first; each loop goes through "
         "OMPParallelLoopTrans or OMPLoopTrans(paralleldo) without force. non-trivial = accepted and code generated; "
         "distinct = canonical loop text.  Search: stores x realisable schedules (all interleavings for <=5 iterations).")
     ctx.cov["trusted_base"] = core.BASE_TRUST + [
@@ -864,6 +891,12 @@ def run(ctx):
         "iterations are atomic (iteration-granularity serialisations, as the property's quantifier states)",
         "values after the region of privatised scalars (private AND firstprivate, incl. the loop variable) are excluded",
         "theorem omp_sound_partial assumes the serial run completes normally (no fault / fuel exhaustion)"]
+    # regenerate coq/C12/GenTables.v (is_inquiry flag of every intrinsic of the tree under test) for C09_inquiry_flags_sound
+    import importlib.util
+    spec = importlib.util.spec_from_file_location("props_C12_translate", core.VERIF / "props" / "C12" / "translate.py")
+    tmod = importlib.util.module_from_spec(spec)
+    spec.loader.exec_module(tmod)
+    ctx.notes["intrinsics_translated"] = len(tmod.generate())
     ok, rep = ctx.prove()
     ctx.log("proof ok=%s discharged=%d/%d %s" % (ok, ctx.cov["discharged"], ctx.cov["obligations"], rep.get("errors")))
     impl = Impl()
@@ -893,7 +926,7 @@ def run(ctx):
         tags.append((kind, ref))
     infer_src = []
     for ri, res in enumerate(results):
-        ctx.hist("loop_kind", "with array sections (harness-only)" if res["seen"] is None else "scalar subscripts (model + harness)")
+        ctx.hist("loop_kind", "with array sections / EXPONENT (harness-only)" if res["seen"] is None else "scalar subscripts (model + harness)")
         if res["seen"] is None:
             continue
         nm = names_for([res["seen"]])
